@@ -192,8 +192,8 @@ def last_applied_obligation(prog):
           "Handler<StateApplyAsyncRequest>::handle (ApplyRequest: last_applied_log assignment)"], "encodes_files": FILES,
           "bound": "batches of 1..=3 entries with strictly increasing symbolic 64-bit indexes", "queries": 0, "solver_s": 0.0, "distinct": 0}
     try:
-        batch_fn = prog.trait_method("StateApplyManager", "handle", "Handler<StateApplyRequest>")
-        single_fn = prog.trait_method("StateApplyManager", "handle", "Handler<StateApplyAsyncRequest>")
+        batch_fn = prog.trait_method("StateApplyManager", "handle", "StateApplyRequest")
+        single_fn = prog.trait_method("StateApplyManager", "handle", "StateApplyAsyncRequest")
         if batch_fn is None or single_fn is None:
             raise rsparse.Unsupported("StateApplyManager handlers not found")
         nq = 0
@@ -221,16 +221,23 @@ def last_applied_obligation(prog):
                 raise rsparse.Unsupported("batch arm forks or panics (%d paths)" % len(paths))
             batch_last = mgr["last_applied_log"]
             saved_vals = [m.args[0] if isinstance(m, Uninterp) and m.args else (m.payload[0] if isinstance(m, Enum) and m.payload else None) for m in saved]
-            # single path
+            # single path: k ApplyRequest messages (forks on opaque Results inside the async block are all followed)
             it2 = rseval.Interp(prog)
             it2.lenient = True
-            mgr2 = Struct("StateApplyManager", dict(mgr, last_applied_log=0))
-            for i in range(k):
-                try:
+
+            def single():
+                mgr2 = Struct("StateApplyManager", dict(mgr, last_applied_log=0))
+                for i in range(k):
                     it2._invoke(single_fn, [mgr2, Enum("StateApplyAsyncRequest", "ApplyRequest", [reqs[i]]), "ctx"], self_ty="StateApplyManager")
-                except rsparse.Unsupported:
-                    raise
-            single_last = mgr2["last_applied_log"]
+                return mgr2["last_applied_log"]
+            spaths = it2.explore(single)
+            svals = [r for pc, r, exc in spaths if exc is None]
+            if not svals:
+                raise rsparse.Unsupported("single-entry path not evaluable")
+            single_last = svals[0]
+            for v in svals[1:]:
+                if not z3.is_true(z3.simplify(rseval.to_bv(v) == rseval.to_bv(single_last))):
+                    raise rsparse.Unsupported("single-entry path records different indexes on different paths")
             bad = []
             bad.append(("batch path records a last-applied index that differs from the index of the last entry of the batch", rseval.to_bv(batch_last) != idx[-1]))
             bad.append(("batch path and single-entry path disagree on the last-applied index", rseval.to_bv(batch_last) != rseval.to_bv(single_last)))
